@@ -116,6 +116,9 @@ class Slicer:
             if x.place is None:
                 c = x.const
                 res.consts.add(c.get("def") or c.get("int") or c.get("str") or c.get("text") or "?")
+                named = self.prog.facts.consts.get(c.get("def")) if c.get("def") else None
+                if named is not None and (named.get("str") is not None or named.get("int") is not None):
+                    res.consts.add(named.get("str") if named.get("str") is not None else named.get("int"))   # a named constant stands for its value
                 return
             x = x.place
         if isinstance(x, Place):
